@@ -10,8 +10,21 @@
    are confined in this sense and free of data races under the Go memory model.
    That part is validated on every run by the race detector under concurrent
    load and by the regenerated shared-state inventory of the source
-   (shared_ok; Run/C16Run.v, harness/c16*.go). *)
+   (shared_ok; Run/C16Run.v, harness/c16*.go).
+
+   Round 6 (Model/SchedShared.v): goroutines whose renders go through
+   SYNCHRONISED package-level state (a cache, a memo: sync.Map, atomic.Value).
+   No data race there, and still a table's output can depend on what other
+   tables were rendered.  Proved: it cannot when the shared cell is
+   transparent (an invariant under which its answer is a function of the
+   question), which a memo keyed by the whole question is under every
+   eviction policy; and that transparency is needed - a memo keyed by a class
+   of the question, and a one-entry memo whose key and value are two
+   registers, are both visible under some schedule.  Whether a cell in the Go
+   code is transparent is, again, what the runs test (items of every kind with
+   per-process references; schedules dense in one renderer). *)
 From Tab Require Import Model.Sched Model.SchedOwn Proofs.SchedProofs Proofs.SchedOwnProofs.
+From Tab Require Import Model.SchedShared Proofs.SchedSharedProofs.
 
 (* For every registry implementation, every program vector and EVERY complete
    schedule (arbitrary merge, any length): if every local action is confined to
@@ -190,4 +203,108 @@ Example c16_example :
 Proof.
   split; [exact ex_ok_confined|]. split; [exact ex_ok_ro|].
   destruct ex_ok_runs as [A [B C]]. split; [exact A|]. split; [exact B|]. exact C.
+Qed.
+
+
+(* ---- round 6: renders that go through synchronised package-level state ---- *)
+
+(* For every shared cell (state C, questions Q, answers A, one atomic step
+   ask), every program vector over SLocal / SAsk and EVERY complete schedule:
+   if the cell is transparent - some invariant holds of its initial state, is
+   kept by every ask, and under it the answer is [pure q] - every goroutine
+   ends with exactly the local state of running its program alone from the
+   same start. *)
+Theorem c16_shared_transparent_schedule_independent :
+  forall (L C Q A : Type) (ask : C -> Q -> A * C) (Inv : C -> Prop) (pure : Q -> A),
+    transparent ask Inv pure ->
+    forall (sched : list nat) (progs : nat -> list (saction L Q A)) (G0 : sstate L C),
+      Inv (s_cell G0) -> scomplete sched progs ->
+      forall t, s_loc (srun_sched ask sched progs G0) t = s_loc (srun_alone ask t (progs t) G0) t.
+Proof. exact shared_transparent_schedule_independent. Qed.
+Print Assumptions c16_shared_transparent_schedule_independent.
+
+(* ... and any two complete schedules agree on every goroutine. *)
+Theorem c16_shared_transparent_any_two_schedules :
+  forall (L C Q A : Type) (ask : C -> Q -> A * C) (Inv : C -> Prop) (pure : Q -> A),
+    transparent ask Inv pure ->
+    forall (s1 s2 : list nat) (progs : nat -> list (saction L Q A)) (G0 : sstate L C),
+      Inv (s_cell G0) -> scomplete s1 progs -> scomplete s2 progs ->
+      forall t, s_loc (srun_sched ask s1 progs G0) t = s_loc (srun_sched ask s2 progs G0) t.
+Proof. exact shared_transparent_any_two_schedules. Qed.
+Print Assumptions c16_shared_transparent_any_two_schedules.
+
+(* A memo of f keyed by the WHOLE question (association list; a miss computes
+   f and stores the pair through keep), for every f, every sound equality
+   test on questions and every eviction policy keep that does not invent
+   entries, started with any truthful content: every schedule gives every
+   goroutine what it gets alone ... *)
+Theorem c16_memo_schedule_independent :
+  forall (Q A : Type) (qeqb : Q -> Q -> bool), (forall a b, qeqb a b = true -> a = b) ->
+  forall (f : Q -> A) (keep : list (Q * A) -> list (Q * A)), (forall l, incl (keep l) l) ->
+  forall L (sched : list nat) (progs : nat -> list (saction L Q A)) (G0 : sstate L (list (Q * A))),
+    memo_inv f (s_cell G0) -> scomplete sched progs ->
+    forall t, s_loc (srun_sched (memo_ask qeqb f keep) sched progs G0) t
+            = s_loc (srun_alone (memo_ask qeqb f keep) t (progs t) G0) t.
+Proof. exact memo_schedule_independent. Qed.
+Print Assumptions c16_memo_schedule_independent.
+
+(* ... which is what f itself gives, with no memo anywhere. *)
+Theorem c16_memo_is_the_function :
+  forall (Q A : Type) (qeqb : Q -> Q -> bool), (forall a b, qeqb a b = true -> a = b) ->
+  forall (f : Q -> A) (keep : list (Q * A) -> list (Q * A)), (forall l, incl (keep l) l) ->
+  forall L (sched : list nat) (progs : nat -> list (saction L Q A)) (G0 : sstate L (list (Q * A))),
+    memo_inv f (s_cell G0) -> scomplete sched progs ->
+    forall t, s_loc (srun_sched (memo_ask qeqb f keep) sched progs G0) t = sfold_pure f (progs t) (s_loc G0 t).
+Proof. exact memo_is_f. Qed.
+Print Assumptions c16_memo_is_the_function.
+
+(* The one-entry memo with key and value in ONE register (keep = the newest
+   entry only): schedule independent. *)
+Theorem c16_one_register_memo_schedule_independent :
+  forall (f : nat -> nat) L (sched : list nat) (progs : nat -> list (saction L nat nat)) (G0 : sstate L (list (nat * nat))),
+    memo_inv f (s_cell G0) -> scomplete sched progs ->
+    forall t, s_loc (srun_sched (memo_ask Nat.eqb f keep_one) sched progs G0) t
+            = s_loc (srun_alone (memo_ask Nat.eqb f keep_one) t (progs t) G0) t.
+Proof. exact one_register_memo_schedule_independent. Qed.
+Print Assumptions c16_one_register_memo_schedule_independent.
+
+(* Transparency is needed (1): a memo keyed by a CLASS of the question - here
+   all questions in one class, the answer to q being q - is synchronised and
+   still visible: goroutine 0 asks 0, goroutine 1 asks 7 and is told 0. *)
+Theorem c16_needs_whole_question_key :
+  exists (sched : list nat) (progs : nat -> list (saction (option nat) nat nat)),
+    scomplete sched progs /\
+    let G0 := mkS (@nil (unit * nat)) (fun _ => None) in
+    let askc := coarse_ask nat nat (fun q => q) unit (fun _ _ => true) one_class in
+    s_loc (srun_sched askc sched progs G0) 1 <> s_loc (srun_alone askc 1 (progs 1) G0) 1.
+Proof. exact coarse_memo_visible. Qed.
+Print Assumptions c16_needs_whole_question_key.
+
+(* Transparency is needed (2): the one-entry memo with key and value in TWO
+   registers, every step atomic.  Goroutines 0 and 1 memoise f 1 and f 2;
+   under tsched (0 stores its value, 1 stores value and key, 0 stores its key)
+   goroutine 2, asking for f 1 afterwards, gets f 2; alone it gets f 1. *)
+Theorem c16_needs_one_register :
+  scomplete tsched tprogs /\
+  t_res (s_loc (srun_alone torn_ask 2 (tprogs 2) tG0) 2) = Some (tf 1) /\
+  t_res (s_loc (srun_sched torn_ask tsched tprogs tG0) 2) = Some (tf 2).
+Proof. exact torn_memo_visible. Qed.
+Print Assumptions c16_needs_one_register.
+
+(* non-vacuity: three goroutines ask a one-register memo of (fun x => 10 * x)
+   for 1, 2 and 1 again; the schedule that breaks the two-register memo and
+   another one give everybody what they get alone *)
+Example c16_example_shared :
+  let ask := memo_ask Nat.eqb tf keep_one in
+  let call : list (saction tl nat nat) := [SAsk (fun l => t_arg l) (fun a l => mkT (t_arg l) false (Some a))] in
+  let progs := spvec_of [call; call; call] in
+  let G0 := mkS (@nil (nat * nat)) (s_loc tG0) in
+  scomplete [0; 1; 2] progs /\ scomplete [2; 1; 0] progs /\
+  map (fun t => t_res (s_loc (srun_sched ask [0; 1; 2] progs G0) t)) [0; 1; 2] = [Some 10; Some 20; Some 10] /\
+  map (fun t => t_res (s_loc (srun_sched ask [2; 1; 0] progs G0) t)) [0; 1; 2] = [Some 10; Some 20; Some 10] /\
+  t_res (s_loc (srun_alone ask 2 (progs 2) G0) 2) = Some 10.
+Proof.
+  cbv zeta. split; [intros [| [| [| t]]]; cbn; try reflexivity; destruct t; reflexivity |].
+  split; [intros [| [| [| t]]]; cbn; try reflexivity; destruct t; reflexivity |].
+  vm_compute. repeat split.
 Qed.
